@@ -7,10 +7,14 @@ EXTENDS Transport, Json, TLC
 \* two configurations, all ten values distinct so that any mix-up of fields or of configurations shows
 C1 == [name |-> "c1", dial |-> 400, rht |-> 300, ka |-> 7000,  idle |-> 21000, maxidle |-> 3]
 C2 == [name |-> "c2", dial |-> 900, rht |-> 450, ka |-> 11000, idle |-> 33000, maxidle |-> 7]
-MCConfigs == {C1, C2}
+\* the ends of the value ranges: everything 0 (no timeouts, Go's defaults), keep-alive negative (probes off)
+C0 == [name |-> "c0", dial |-> 0, rht |-> 0, ka |-> 0, idle |-> 0, maxidle |-> 0]
+CN == [name |-> "cn", dial |-> 600, rht |-> 350, ka |-> 0 - 1000, idle |-> 27000, maxidle |-> 5]
+MCConfigs == {C1, C2, C0, CN}
+BehConfigs == {C1, C2}
 MCDelays == {"zero", "below", "above"}
 
-HistJson(h) == [i \in DOMAIN h |-> [op |-> h[i].op, kind |-> h[i].kind, c |-> h[i].c]]
+HistJson(h) == [i \in DOMAIN h |-> [op |-> h[i].op, kind |-> h[i].kind, c |-> h[i].c, kaobs |-> KeepIdleOf(h[i].c.ka)]]
 
 \* one line per complete history
 GenNext == /\ Next
@@ -21,23 +25,30 @@ GenSpec == Init /\ [][GenNext]_vars
 \* one had been configured first), each delay class
 BehCases == { [c |-> c, first |-> f, kind |-> k, class |-> cl,
                delay |-> DelayOf(cl, c.rht), out |-> Outcome(c, DelayOf(cl, c.rht))] :
-                c \in MCConfigs, f \in MCConfigs \cup {Zero}, k \in Kinds, cl \in MCDelays }
+                c \in BehConfigs, f \in BehConfigs \cup {Zero}, k \in Kinds, cl \in MCDelays }
+\* no response-header timeout configured: a slow upstream is served, not cut off
+SlowCases == { [c |-> C0, first |-> Zero, kind |-> k, class |-> "slow", delay |-> 1000, out |-> Outcome(C0, 1000)] : k \in Kinds }
+\* the handlers in front of the transport x the kinds of request
+WrapCases == { [c |-> c, first |-> Zero, kind |-> k, class |-> cl, delay |-> DelayOf(cl, c.rht),
+                out |-> Outcome(c, DelayOf(cl, c.rht)), wrap |-> w, req |-> r] :
+                c \in BehConfigs, k \in Kinds, cl \in {"below", "above"}, w \in Wraps, r \in ReqKinds }
 \* (mentions a variable so that TLC does not evaluate it as a constant in every run)
 \* concurrent requests: k at once, hanging / fast upstream
 ConcCases == { [t |-> "conc", c |-> c, kind |-> k, n |-> n, class |-> cl, delay |-> DelayOf(cl, c.rht),
                 out |-> Outcome(c, DelayOf(cl, c.rht))] :
-                 c \in MCConfigs, k \in Kinds, n \in UNION {Burst(c.maxidle) : c \in MCConfigs}, cl \in {"zero", "above"} }
+                 c \in BehConfigs, k \in Kinds, n \in UNION {Burst(c.maxidle) : c \in BehConfigs}, cl \in {"zero", "above"} }
 ConcCasesOf == { x \in ConcCases : x.n \in Burst(x.c.maxidle) }
 \* idle connections per host: bursts A, B, A of n requests through one shared transport
 ReuseCases == { [t |-> "reuse", c |-> c, kind |-> k, n |-> n, new |-> NewConnsAfterBursts(c, NoExtra, n)] :
-                 c \in MCConfigs, k \in {"default", "insecure"}, n \in 1..7 }
+                 c \in BehConfigs, k \in {"default", "insecure"}, n \in 1..7 }
 ReuseCasesOf == { x \in ReuseCases : x.n \in {1, x.c.maxidle - 1, x.c.maxidle} }
 MCOperator == C1
 BehPrint2 == \A b \in ConcCasesOf \cup ReuseCasesOf : hist = <<>> /\ PrintT(ToJson(b))
 Beh2Init == Init /\ BehPrint2
 Beh2Spec == Beh2Init /\ [][UNCHANGED vars]_vars
 
-BehPrint == \A b \in BehCases : hist = <<>> /\ PrintT(ToJson(b))
+BehPrint == /\ \A b \in BehCases \cup SlowCases : hist = <<>> /\ PrintT(ToJson(b))
+            /\ \A b \in WrapCases : hist = <<>> /\ PrintT(ToJson(b))
 BehInit == Init /\ BehPrint
 BehSpec == BehInit /\ [][UNCHANGED vars]_vars
 =============================================================================
